@@ -103,7 +103,11 @@ func cleanupFilePos(tfile *token.File, cl engine.Changelog, comments []*ast.Comm
 			continue
 		}
 
-		for i := tfile.Line(dr.Start); i < tfile.Line(dr.End); i++ {
+		// Use physical line numbers: //line directives in the file must
+		// not affect which lines of the token.File are merged.
+		startLine := tfile.PositionFor(dr.Start, false).Line
+		endLine := tfile.PositionFor(dr.End, false).Line
+		for i := startLine; i < endLine; i++ {
 			if i > 0 {
 				linesToDelete[i] = struct{}{}
 			}
